@@ -16,7 +16,7 @@ open Generated (Style)
 
 /-! ### occurrences: `pat in s` is false means `s` cannot be cut around `pat` -/
 
-theorem findSub_none_infix {pat : Text} (a b : Text) : ∀ s, findSub pat s = none → s ≠ a ++ pat ++ b := by
+theorem findSub_none_cut {pat : Text} (a b : Text) : ∀ s, findSub pat s = none → s ≠ a ++ pat ++ b := by
   induction a with
   | nil =>
     intro s hn hs
@@ -29,7 +29,7 @@ theorem findSub_none_infix {pat : Text} (a b : Text) : ∀ s, findSub pat s = no
     exact ih _ (findSub_none_cons h2).2 rfl
 
 theorem not_contains_infix {pat s : Text} (h : contains s pat = false) (a b : Text) : s ≠ a ++ pat ++ b := by
-  apply findSub_none_infix
+  apply findSub_none_cut
   unfold contains at h
   cases hf : findSub pat s with
   | none => rfl
